@@ -76,6 +76,9 @@ func (r *request) executeInternal(next bool) {
 				break
 			} else {
 				r.client.proxy.logger.Debug("failed to send request to host", zap.Stringer("host", r.host), zap.Error(err))
+				// The host can't be used (anymore), e.g. it was removed or its connections were lost after it answered.
+				// Move on to the next host; repeating the same failing send would loop forever without answering.
+				next = true
 			}
 		}
 	}
